@@ -214,6 +214,13 @@ func init() {
 			}
 			pa := geo.Area(poly)
 			mp := orb.MultiPolygon{poly, {r}}
+			if c.rng.Intn(3) == 0 { // members without rings (what is left of a part that was clipped or simplified away) add nothing
+				j := c.rng.Intn(3)
+				mp = append(mp[:j:j], append(orb.MultiPolygon{orb.Polygon{}}, mp[j:]...)...)
+				if c.rng.Intn(2) == 0 {
+					mp = append(mp, nil)
+				}
+			}
 			sign := 0
 			if base > 0 {
 				sign = 1
